@@ -23,8 +23,11 @@ EXTENDS Integers, Sequences, FiniteSets, TLC, VerifIO
 
 CONSTANTS Protos, MaxFrames, MODE, CHECKSORT, EXPORT
 
-Code(p) == CASE p = "B" -> 1 [] p = "G" -> 2 [] p = "H" -> 3 [] p = "U1" -> 4 [] p = "U2" -> 5 [] OTHER -> 6
-Size(p) == CASE p = "B" -> 2 [] p = "G" -> 5 [] p = "H" -> 3 [] p = "U1" -> 4 [] p = "U2" -> 6 [] OTHER -> 8
+(* "Hx": a crafted frame -- the HTTP gateway's code followed by a payload length of 2 and two payload bytes.  The gateway
+   frame is code + length 0 and nothing else: no such frame is ever written, and the decoder must not take it for "H"
+   (it would re-encode as the 3-byte frame, which is not what was consumed).                                        *)
+Code(p) == CASE p = "B" -> 1 [] p = "G" -> 2 [] p \in {"H", "Hx"} -> 3 [] p = "U1" -> 4 [] p = "U2" -> 5 [] OTHER -> 6
+Size(p) == CASE p = "B" -> 2 [] p = "G" -> 5 [] p = "H" -> 3 [] p = "Hx" -> 5 [] p = "U1" -> 4 [] p = "U2" -> 6 [] OTHER -> 8
 
 RECURSIVE Insert(_, _)
 Insert(s, p) == IF s = <<>> THEN <<p>>
@@ -42,7 +45,7 @@ Encode(ps) == Wire(Sort(ps))
 ReadFrame(data) ==
   IF data = <<>> \/ data[1].j # 1 THEN [ok |-> FALSE, p |-> "", n |-> 0]
   ELSE LET p == data[1].p IN
-       IF Len(data) >= Size(p) /\ \A j \in 1..Size(p) : data[j].p = p /\ data[j].f = data[1].f /\ data[j].j = j
+       IF p # "Hx" /\ Len(data) >= Size(p) /\ \A j \in 1..Size(p) : data[j].p = p /\ data[j].f = data[1].f /\ data[j].j = j
        THEN [ok |-> TRUE, p |-> p, n |-> Size(p)] ELSE [ok |-> FALSE, p |-> "", n |-> 0]
 
 Drop(s, n) == IF n >= Len(s) THEN <<>> ELSE SubSeq(s, n + 1, Len(s))
@@ -68,22 +71,25 @@ Pick == /\ stage = 0 /\ stage' = 1 /\ UNCHANGED ps
         /\ \/ kind' = "roundtrip" /\ cut' = 0
            \/ kind' = "raw" /\ cut' = 0                                   \* frames concatenated in construction order
            \/ kind' = "truncated" /\ cut' \in 0..(Len(Encode(ps)) - 1)      \* canonical encoding cut after `cut` bytes
+           \/ kind' = "crafted" /\ Sorted(ps) /\ cut' \in {k \in 1..Len(ps) : ps[k] = "H"}   \* frame `cut` replaced by its crafted variant
 Next == Pick
 Spec == Init /\ [][Next]_vars
 Complete == stage = 1
 
-Input == CASE kind = "roundtrip" -> Encode(ps) [] kind = "raw" -> Wire(ps) [] OTHER -> SubSeq(Encode(ps), 1, cut)
+Input == CASE kind = "roundtrip" -> Encode(ps) [] kind = "raw" -> Wire(ps) [] kind = "crafted" -> Wire([ps EXCEPT ![cut] = "Hx"]) [] OTHER -> SubSeq(Encode(ps), 1, cut)
 Result == Decode(Input)
 (* declarative expectation *)
 Prefixes(w) == {k \in 0..Len(w) : k = 0 \/ w[k].j = Size(w[k].p)}            \* frame boundaries
 Expected == CASE kind = "roundtrip" -> [ok |-> TRUE, ps |-> Sort(ps)]
               [] kind = "raw" -> IF Sorted(ps) THEN [ok |-> TRUE, ps |-> ps] ELSE [ok |-> FALSE, ps |-> <<>>]
+              [] kind = "crafted" -> [ok |-> FALSE, ps |-> <<>>]
               [] OTHER -> IF cut > 0 /\ cut \in Prefixes(Encode(ps)) THEN [ok |-> TRUE, ps |-> Decode(SubSeq(Encode(ps), 1, cut)).ps]
                           ELSE [ok |-> FALSE, ps |-> <<>>]
 
 RoundTrips == (Complete /\ kind = "roundtrip") => Result = [ok |-> TRUE, ps |-> Sort(ps)]
 EveryProtocolRetrievable == (Complete /\ kind = "roundtrip" /\ Result.ok) => \A i \in 1..Len(ps) : \E k \in 1..Len(Result.ps) : Result.ps[k] = ps[i]
 Canonical == (Complete /\ Result.ok) => Encode(Result.ps) = Input      \* accepted input re-encodes to the bytes consumed
+CraftedRejected == (Complete /\ kind = "crafted") => ~Result.ok
 AgreesWithExpected == Complete => Result.ok = Expected.ok
 ExportCase == (Complete /\ EXPORT) => Emit("c11_cases.ndjson", [ps |-> ps, kind |-> kind, cut |-> cut, ok |-> Expected.ok,
                                                                  out |-> IF Expected.ok THEN Expected.ps ELSE <<>>])
